@@ -11,6 +11,7 @@ import RichchkModel.Model.StrEdit
 import RichchkModel.Model.Editors
 import RichchkModel.Generated.Consts
 import RichchkModel.Generated.Imports
+import RichchkModel.Model.FileOps
 open Richchk
 
 def showR {α} (f : α → String) : R α → String
@@ -204,6 +205,7 @@ def step (line : String) : String :=
   | ["flags", nm, n] => opFlags nm n
   | ["trigrow", k, n] => opTrigRow k n
   | ["import1", e] => opImport1 e
+  | ["wavms", f, r] => (match f.toNat?, r.toNat? with | some f, some r => (if r = 0 then "ERR other" else toString (wavDurationMs f r)) | _, _ => "bad-op")
   | ["alloc", k, t, b] => opAlloc k t b
   | ["addstr", w, n, o, st, rq] => opAddStr w n o st rq
   | ["tostrx", n, o, st] => opToStrx n o st
